@@ -78,6 +78,12 @@ THEOREMS = [
     'C04.gen_c2pTable_eq_model', 'C04.gen_settingSites_eq_model', 'C04.gen_settingFamilies_eq_model',
     'C04.gen_multip_eq_model', 'C04.gen_c2pDefaults_eq_model', 'C04.gen_resolveCalls_eq_model',
     'C04.gen_resolveSetting_eq_model', 'C04.gen_familyGate_eq_model', 'C04.gen_pins_eq_model',
+    # the numpy bookkeeping of supersize (a tiny array language interpreted on symbolic shapes): the replica counters x, y, z
+    # and the copy indices of the source are the model's; they enumerate the rows in the model's order; the rows of
+    # supersizeAtoms in terms of them; one pass of the site loop of check_setting_basis
+    'C04.gen_offsets_eq_model', 'C04.flatMap_const_replicate', 'C04.tileList_eq_flatten', 'C04.tileList_mul',
+    'C04.offsets_spec', 'C04.map_eq_range_filterMap', 'C04.supersizeAtoms_eq_order', 'C04.gen_siteStep_eq_model',
+    'C04.gen_siteCallKw_eq_model', 'C04.checkSitesBy_step',
     # round 6 (Proofs/C04_Ladder.lean + end of Proofs/C04.lean). the call as written: which multiplier arguments are
     # refused and with which error, the first refused axis decides; supersize end to end
     'C04.resolve_ok_iff', 'C04.resolve_spec', 'C04.resolve_error_iff', 'C04.resolveSizes_ok_iff', 'C04.resolveSizes_ok',
@@ -384,6 +390,120 @@ def _kw(call, allowed=None):
     return d
 
 
+class _SymNat:
+    """a product of named natural numbers: Lean text + multiset of factors (for shape consistency)."""
+
+    def __init__(self, lean, factors):
+        self.lean = lean
+        self.factors = tuple(sorted(factors))
+
+    def same(self, other):
+        return self.factors == other.factors
+
+
+def _sym_nat(node, lens):
+    import ast
+    names = {'mults[0]': 'm0', 'mults[1]': 'm1', 'mults[2]': 'm2', 'self.natoms': 'N'}
+    key = _u(node)
+    if key in names:
+        return _SymNat(names[key], [names[key]])
+    if isinstance(node, ast.Call) and _u(node.func) == 'len' and len(node.args) == 1 and _u(node.args[0]) in lens:
+        return lens[_u(node.args[0])]
+    if isinstance(node, ast.BinOp) and isinstance(node.op, ast.Mult):
+        a, b = _sym_nat(node.left, lens), _sym_nat(node.right, lens)
+        return _SymNat(f'({a.lean} * {b.lean})', a.factors + b.factors)
+    _te(f'supersize: size expression {key}')
+
+
+def _tr_broadcast(stmts, out):
+    """the statements that build the replica counters x, y, z: a tiny array language
+    (`np.empty(n)`, `.shape = (a, b)`, `[:] = np.arange(m)`, `[:] = v`, `.T.flatten()`, `.flatten()`) interpreted on
+    symbolic shapes -> Lean lists over `colMajorRange` / `tileList`."""
+    import ast
+    lists, lens = {}, {}
+    test = None
+    for s in stmts:
+        txt = _u(s)
+        if isinstance(s, ast.Assign) and txt.startswith('test = ') and _is_call(s.value, 'np.empty', 1) and not s.value.keywords:
+            n = _sym_nat(s.value.args[0], lens)
+            test = {'size': n, 'shape': (n,), 'content': None}
+        elif isinstance(s, ast.Assign) and _u(s.targets[0]) == 'test.shape' and isinstance(s.value, ast.Tuple) \
+                and len(s.value.elts) == 2 and test is not None:
+            a, b = (_sym_nat(e, lens) for e in s.value.elts)
+            if sorted(a.factors + b.factors) != sorted(test['size'].factors):
+                _te('supersize: reshape to another size: ' + txt)
+            test['shape'] = (a, b)
+            test['content'] = None
+        elif isinstance(s, ast.Assign) and _u(s.targets[0]) == 'test[:]' and test is not None and len(test['shape']) == 2:
+            v = s.value
+            if _is_call(v, 'np.arange', 1) and not v.keywords:
+                m = _sym_nat(v.args[0], lens)
+                if not m.same(test['shape'][1]):
+                    _te('supersize: broadcast of arange against another row length: ' + txt)
+                test['content'] = ('range', m.lean)
+            elif isinstance(v, ast.Name) and v.id in lists:
+                if not lens[v.id].same(test['shape'][1]):
+                    _te('supersize: broadcast of a list against another row length: ' + txt)
+                test['content'] = ('tile', lists[v.id])
+            else:
+                _te('supersize: ' + txt)
+        elif isinstance(s, ast.Assign) and isinstance(s.targets[0], ast.Name) and _u(s.value) in ('test.T.flatten()', 'test.flatten()') \
+                and test is not None and len(test['shape']) == 2 and test['content'] is not None:
+            rows = test['shape'][0].lean
+            kind, arg = test['content']
+            if _u(s.value) == 'test.T.flatten()':
+                if kind != 'range':
+                    _te('supersize: transposed flatten of a tiled array: ' + txt)
+                lean = f'colMajorRange {rows} {arg}'
+            else:
+                lean = f'tileList {rows} ({arg})' if kind == 'tile' else f'tileList {rows} (List.range {arg})'
+            lists[s.targets[0].id] = lean
+            lens[s.targets[0].id] = test['size']
+        else:
+            _te('supersize: statement outside the array subset: ' + txt[:80])
+    for v in ('x', 'y', 'z'):
+        if v not in lists:
+            _te(f'supersize: {v} not built')
+    out.append('/-- the replica counters `x`, `y`, `z` (one entry per row of the result) as the broadcasting statements build them. -/')
+    for v in ('x', 'y', 'z'):
+        out.append(f'def genOffsets{v.upper()} (N m0 m1 m2 : Nat) : List Nat := {lists[v]}')
+
+
+def _tr_copy(stmts_spos, loop, out):
+    """`new = np.empty((M,) + old.shape); new[:] = old; reshape((M * N, …))` for the scaled positions and, in the loop over
+    the property names, for every other per-atom array: row `k` of the result is row `k mod N` of the input."""
+    import ast
+    def count(first, tail, var, src, extra=''):
+        want = [f'{var}[:] = {src}', f'new_shape = {var}.shape', 'new_shape = (new_shape[0] * new_shape[1],) + new_shape[2:]']
+        if [_u(s) for s in tail[:3]] != want:
+            _te('supersize: copy statements ' + ' | '.join(_u(s) for s in tail[:3]))
+        v = first.value
+        if not (isinstance(first, ast.Assign) and _u(first.targets[0]) == var and _is_call(v, 'np.empty', 1)
+                and isinstance(v.args[0], ast.BinOp) and isinstance(v.args[0].op, ast.Add)
+                and isinstance(v.args[0].left, ast.Tuple) and len(v.args[0].left.elts) == 1
+                and _u(v.args[0].right) == f'{src}.shape' and [k.arg for k in v.keywords] == ([extra] if extra else [])):
+            _te('supersize: copy buffer ' + _u(first))
+        return _sym_nat(v.args[0].left.elts[0], {})
+    if len(stmts_spos) != 5 or _u(stmts_spos[4]) != 'new_spos = new_spos.reshape(new_shape)':
+        _te('supersize: scaled-position copy')
+    c1 = count(stmts_spos[0], stmts_spos[1:], 'new_spos', 'spos')
+    if not (_u(loop.target) == 'key' and _u(loop.iter) == 'self.atoms_prop()' and not loop.orelse and len(loop.body) == 7):
+        _te('supersize: property loop')
+    b = loop.body
+    sk = b[0]
+    if not (isinstance(sk, ast.If) and isinstance(sk.test, ast.Compare) and _u(sk.test.left) == 'key'
+            and isinstance(sk.test.ops[0], ast.Eq) and [_u(x) for x in sk.body] == ['continue'] and not sk.orelse):
+        _te('supersize: skipped key')
+    if _u(b[1]) != 'old = self.atoms.view[key]' or _u(b[6]) != 'atoms.view[key] = np.array(new.reshape(new_shape))':
+        _te('supersize: property loop read / write')
+    c2 = count(b[2], b[3:6], 'new', 'old', extra='dtype')
+    out.append('/-- the row of the input each row of the result is copied from: scaled positions, every other per-atom array; '
+               'the one key the loop skips. -/')
+    out.append(f'def genSposIndex (N m0 m1 m2 : Nat) : List Nat := tileList {c1.lean} (List.range N)')
+    out.append(f'def genCopyIndex (N m0 m1 m2 : Nat) : List Nat := tileList {c2.lean} (List.range N)')
+    out.append(f'def genSkippedKey : String := {_lean_str(ast.literal_eval(sk.test.comparators[0]))}')
+
+
 def _tr_supersize(tree, out, pins):
     import ast
     fn = _find_fn(tree, 'supersize', 'System')
@@ -492,12 +612,13 @@ def _tr_supersize(tree, out, pins):
         _te('supersize: natoms / Atoms')
     if not isinstance(rest[2], ast.For):
         _te('supersize: copy loop')
-    pins['supersize_copy_loop'] = _pin_hash([rest[2]])
     ixyz = [k for k, s in enumerate(rest) if isinstance(s, ast.Assign) and _u(s.targets[0]) == 'xyz']
-    if len(ixyz) != 1:
+    if len(ixyz) != 1 or ixyz[0] < 8:
         _te('supersize: xyz')
     k = ixyz[0]
-    pins['supersize_broadcast'] = _pin_hash(rest[3:k])
+    bc_out = []
+    _tr_copy(rest[3:8], rest[2], bc_out)
+    _tr_broadcast(rest[8:k], bc_out)
     v = rest[k].value
     if not (isinstance(v, ast.BinOp) and isinstance(v.op, ast.Mult) and _is_call(v.left, 'np.hstack', 1)
             and _is_call(v.right, 'np.array', 1) and isinstance(v.right.args[0], ast.List) and len(v.right.args[0].elts) == 3):
@@ -511,12 +632,13 @@ def _tr_supersize(tree, out, pins):
             texts[k + 2] != 'return System(box=box, atoms=atoms, scale=True, symbols=self.symbols)' or len(rest) != k + 3:
         _te('supersize: tail')
     out.append('/-- relative position of replica `(r0, r1, r2)` in the multiplied cell: `new_spos + xyz` with\n'
-               '    `xyz = hstack(x, y, z) * array([…])` (`x` counts the replicas along `a`, … — statement pin `supersize_broadcast`). -/')
+               '    `xyz = hstack(x, y, z) * array([…])` (`x`, `y`, `z`: `genOffsetsX/Y/Z` below). -/')
     out.append('def genReplicaRel (sa sb sc : Size) (q : V3 K) (r0 r1 r2 : Nat) : V3 K :=\n'
                f'  ⟨genAxisSpos q q q.x (sa.lo : K) (sa.mult : K) + ((r0 : Int) : K) * {steps[0]},\n'
                f'   genAxisSpos q q q.y (sb.lo : K) (sb.mult : K) + ((r1 : Int) : K) * {steps[1]},\n'
                f'   genAxisSpos q q q.z (sc.lo : K) (sc.mult : K) + ((r2 : Int) : K) * {steps[2]}⟩')
     out.append('end')
+    out.extend(bc_out)
 
 
 def _tr_rotate(tree, mtree, out, pins):
@@ -853,6 +975,60 @@ def _v3i(r):
     return '⟨' + ', '.join(str(x) for x in r) + '⟩'
 
 
+def _tr_site_loop(st, out):
+    """the loop over the lattice sites of check_setting_basis -> one pass as a Lean function of what the pass observes
+    (`np.sum(index)`, `ucell.atoms.atype[index][0]`, the remembered `atype`)."""
+    import ast
+    txt = [_u(x) for x in st]
+    if len(st) != 4 or txt[0] != 'pos = ucell.box.position_relative_to_cartesian(relpos)' or txt[1] != 'atype = None' \
+            or txt[3] != 'return True' or not isinstance(st[2], ast.For):
+        _te('check_setting_basis: site loop frame ' + ' | '.join(t[:40] for t in txt))
+    lp = st[2]
+    if not (_u(lp.target) == 'p' and _u(lp.iter) == 'pos' and not lp.orelse and len(lp.body) == 3):
+        _te('check_setting_basis: site loop header (every site of the setting, in order)')
+    call = lp.body[0]
+    if not (isinstance(call, ast.Assign) and _u(call.targets[0]) == 'index' and _is_call(call.value, 'index_of_pos', 2)
+            and [_u(a) for a in call.value.args] == ['ucell', 'p']):
+        _te('check_setting_basis: index_of_pos call')
+    kw = [(k, _u(v)) for k, v in _kw(call.value).items()]
+    out.append('/-- keywords of the `index_of_pos(ucell, p, …)` call of the site loop. -/\n'
+               'def genSiteCallKw : List (String × String) := [' + ', '.join(f'({_lean_str(k)}, {_lean_str(v)})' for k, v in kw) + ']')
+    ex = _Ex({'np.sum(index)': ('count', 'I'), 'atype': ('atype', 'I'), 'ucell.atoms.atype[index][0]': ('t', 'I')}, scalar='I')
+
+    def ret(stmts):
+        if len(stmts) != 1:
+            _te('check_setting_basis: site loop branch')
+        b = stmts[0]
+        if isinstance(b, ast.Return) and isinstance(b.value, ast.Constant) and isinstance(b.value.value, bool):
+            return f'.ret {str(b.value.value).lower()}'
+        if isinstance(b, ast.Raise):
+            if _raised(b) != 'value':
+                _te('check_setting_basis: overlapping atoms raise another error class')
+            return '.raise'
+        _te('check_setting_basis: site loop branch ' + _u(b))
+
+    def chain(node, tail):
+        if not isinstance(node, ast.If):
+            _te('check_setting_basis: site loop if-chain')
+        c = ex.cond(node.test)
+        if not node.orelse:
+            rest_ = tail
+        elif len(node.orelse) == 1 and isinstance(node.orelse[0], ast.If):
+            rest_ = chain(node.orelse[0], tail)
+        else:
+            rest_ = ret(node.orelse)
+        return f'if {c} then {ret(node.body)} else {rest_}'
+    second = lp.body[2]
+    if not (isinstance(second, ast.If) and _u(second.test) == 'atype is None'
+            and [_u(x) for x in second.body] == ['atype = ucell.atoms.atype[index][0]']
+            and len(second.orelse) == 1 and isinstance(second.orelse[0], ast.If) and not second.orelse[0].orelse):
+        _te('check_setting_basis: type comparison ' + _u(second)[:80])
+    some_branch = chain(second.orelse[0], '.next (some atype)')
+    tail = f'\n  match ty with\n  | none => .next (some t)\n  | some atype => {some_branch}'
+    out.append('/-- one pass of the site loop (`count` = `np.sum(index)`, `t` = the type found, `ty` = the remembered `atype`). -/\n'
+               'def genSiteStep (count : Nat) (t : Int) (ty : Option Int) : SiteStep :=\n  ' + chain(lp.body[1], tail))
+
+
 def _tr_conversions(ctree, ptree, mtree, out, pins):
     import ast
     # --- miller tables
@@ -939,7 +1115,7 @@ def _tr_conversions(ctree, ptree, mtree, out, pins):
         _te('check_setting_basis: family gate ' + _u(gate.test))
     out.append('/-- `if check_family and family not in families: return False` (before the site loop). -/\n'
                'def genFamilyGate (checkFamily allowed : Bool) : Bool := checkFamily && !allowed')
-    pins['check_setting_basis_site_loop'] = _pin_hash(st[3:])
+    _tr_site_loop(st[3:], out)
     pins['index_of_pos'] = _pin_hash(_stmts(_find_fn(ctree, 'index_of_pos')))
     # --- conventional_to_primitive.dump
     fn = _find_fn(ctree, 'dump')
